@@ -90,6 +90,10 @@ def run(cmd, cwd, env=None, timeout=600):
         return -9, "TIMEOUT"
 
 
+FULL_ENV = {"VERIF_WATCHDOG_S": "30", "GOGC": "200", "VERIF_C14_LEN": "6", "VERIF_C20_LEN": "8", "VERIF_C04_IP6LEN": "7"}
+USE_FULL = False
+
+
 def one(site, idx, checks):
     f, ln, a, b, rep, desc = site
     wd = tempfile.mkdtemp(prefix="mut%05d-" % idx, dir="/tmp/mutsweep")
@@ -127,7 +131,7 @@ def one(site, idx, checks):
             res["detail"] = out[-500:]
             return res
         env = dict(ENV)
-        env.update(SMOKE_ENV)
+        env.update(FULL_ENV if USE_FULL else SMOKE_ENV)
         env.update({"VERIF_REPLAY_DIR": os.path.join(wd, "rp"), "VERIF_STATS": os.path.join(wd, "st.json"),
                     "VERIF_REPLAY_FILES": os.path.join(VERIF, "replays"), "GOMAXPROCS": "3", "VERIF_WORKERS": "3"})
         t0 = time.time()
@@ -157,12 +161,32 @@ def main():
     ap.add_argument("--stride", type=int, default=1)
     ap.add_argument("--offset", type=int, default=0)
     ap.add_argument("--checks", type=int, default=400)
+    ap.add_argument("--from-results", default="", help="re-run only the SURVIVED mutants of an earlier result file")
+    ap.add_argument("--skip-files", default="")
+    ap.add_argument("--full", action="store_true", help="default enumeration depths instead of the smoke sizes")
     a = ap.parse_args()
+    global USE_FULL
+    USE_FULL = a.full
     os.makedirs("/tmp/mutsweep", exist_ok=True)
     files = [f for f in sorted(os.listdir(REPO)) if f.endswith(".go") and not f.endswith("_test.go") and f not in SKIP_FILES]
     if a.files:
         files = a.files.split(",")
     st = sites(files)
+    if a.from_results:
+        surv = set()
+        for l in open(a.from_results):
+            d = json.loads(l)
+            if d["status"] == "SURVIVED":
+                surv.add((d["file"], d["line"] - 1, d["op"], d["mutated"]))
+        skip = set(a.skip_files.split(","))
+        keep = []
+        for t in st:
+            f, ln, x, y, rep, desc = t
+            line = open(os.path.join(REPO, f)).read().split("\n")[ln]
+            mutated = (line[:x] + rep + line[y:]).strip()[:120]
+            if (f, ln, desc, mutated) in surv and f not in skip:
+                keep.append(t)
+        st = keep
     st = st[a.offset::a.stride]
     if a.limit:
         st = st[:a.limit]
